@@ -239,7 +239,9 @@ func FireTimer() bool { time.Sleep(30 * time.Millisecond); return true }
 func LiveTimers() int { return 0 }
 
 // Error returns an opaque non-nil error with its own identity.
-func Error(label string) error { return fmt.Errorf("verif-error[%s]:%s", label, String("errmsg:"+label)) }
+func Error(label string) error {
+	return fmt.Errorf("verif-error[%s]:%s", label, String("errmsg:"+label))
+}
 
 // TypeName returns the dynamic type of x as written by %T.
 func TypeName(x interface{}) string {
